@@ -76,6 +76,10 @@ def scenario(g, i):
     if i % 2 == 0:
         tree += [{"p": f"{s}_dir", "k": "d", "m": 0o755},
                  {"p": f"{s}_dir/{s}_in.txt", "k": "f", "c": (gen.render(a, "Camel") + "\n").encode(), "m": 0o644}]
+    if i % 3 != 2:
+        # renamed symbolic links that do not resolve when a rollback reaches them: one dangling from the start, one whose (relative)
+        # target is renamed by the same plan
+        tree += [{"p": f"{s}_dangling", "k": "l", "t": "nowhere"}, {"p": f"ln_{s}", "k": "l", "t": f"zz_{s}.txt"}]
     seen, out = set(), []
     for e in tree:
         if e["p"] not in seen:
